@@ -24,7 +24,7 @@ def run(chk, tier):
 
 
 def r_guards(chk, P, tier):
-    chk.rule("SIB.guards", "duration_round / _trunc / _round_up share the guard prefix and the error classification", floor=12)
+    chk.rule("SIB.guards", "duration_round / _trunc / _round_up share the guard prefix and the error classification", floor=15)
     for fn in FNS:
         errs = []
         oks = 0
@@ -63,6 +63,15 @@ def r_guards(chk, P, tier):
                     recv.add(a)
         chk.expect(bool(recv) and all(a[0] == "arg" for a in recv), fn + ": span unmodified", "%s classifies %s, not the span argument itself, with num_nanoseconds()" % (
             fn, sorted(pp(a)[:50] for a in recv if a[0] != "arg")), loc=P.loc(fn))
+        # one basis for all spans: every value is computed from the nanosecond timestamp of the wall-clock reading (no per-span shortcut)
+        nobasis = 0
+        nok = 0
+        for p in Sym(P, fn).paths():
+            if p.end[0] == "return" and result_variant(p.ret)[0] == "Ok":
+                nok += 1
+                if not any(isinstance(c[1], str) and c[1].endswith("timestamp_nanos_opt") for c in p.calls):
+                    nobasis += 1
+        chk.expect(nok > 0 and nobasis == 0, fn + ": epoch basis", "%s returns Ok on %d of %d paths without having taken timestamp_nanos_opt() (multiples are counted from the Unix epoch for every span)" % (fn, nobasis, nok), loc=P.loc(fn))
         chk.expect(rem_guarded and oks >= 3, fn + ": span > 0 before %", "%s has a success path that does not pass the `span <= 0` guard" % fn, loc=P.loc(fn))
 
 
